@@ -17,6 +17,7 @@ import (
 
 	"github.com/PowerDNS/lightningstream/config"
 	"github.com/PowerDNS/lightningstream/lmdbenv"
+	"github.com/PowerDNS/lightningstream/lmdbenv/header"
 	"github.com/PowerDNS/lightningstream/snapshot"
 	"github.com/PowerDNS/lightningstream/syncer"
 	"github.com/PowerDNS/lightningstream/syncer/events"
@@ -1337,5 +1338,173 @@ func v1DeletionScenario(out *AreaOut) error {
 		hist(out.Hist, "format-1-deletions/"+mode)
 	}
 	syncer.VerifSetClock(nil)
+	return nil
+}
+
+// ---- round 9 ----
+
+// malformedKeyLoad (C18, oracle only: LMDB's key-size limit is outside the model's domain): a decodable snapshot in
+// which ONE entry has a key LMDB cannot store (empty, or longer than 511 bytes), between well-formed entries and
+// after a DBI that does not exist locally. The merge of that entry fails (MDB_BAD_VALSIZE), so the whole snapshot
+// must be refused: LoadOnce returns the error and the LMDB — DBI list, every entry, LastTxnID — is as before.
+func malformedKeyLoad(out *AreaOut) error {
+	for _, native := range []bool{true, false} {
+		for _, badKey := range [][]byte{{}, bytes.Repeat([]byte{'m'}, 512), bytes.Repeat([]byte{'m'}, 600)} {
+			for _, pos := range []int{0, 1, 2} {
+				out.OracleN++
+				env, cleanup, err := newEnv()
+				if err != nil {
+					return err
+				}
+				now := uint64(time.Now().UnixNano())
+				if err := applyApp(env, native, now-uint64(time.Hour), []appOp{{DBI: "app", Key: []byte("a1"), Val: []byte("local")}}); err != nil {
+					cleanup()
+					return err
+				}
+				sy, err := newSyncer(env, memory.New(), syncerOpts{Native: native, Instance: "a"})
+				if err != nil {
+					cleanup()
+					return err
+				}
+				if !native {
+					// bring the shadow DBIs up to date first, so that the load's own capture changes nothing
+					if _, err := sy.SendOnce(context.Background(), env); err != nil {
+						cleanup()
+						return err
+					}
+				}
+				before, last, _ := dumpEnv(env)
+				good := []snapshot.KV{
+					{Key: []byte("a1"), Value: []byte("remote1"), TimestampNano: now - 1000},
+					{Key: []byte("n5"), Value: []byte("remote2"), TimestampNano: now - 1000},
+				}
+				bad := snapshot.KV{Key: badKey, Value: []byte("x"), TimestampNano: now - 1000}
+				var es []snapshot.KV
+				es = append(es, good[:pos]...)
+				es = append(es, bad)
+				es = append(es, good[pos:]...)
+				sds := []snapDBI{
+					{Name: "aaa", Entries: []snapshot.KV{{Key: []byte("k"), Value: []byte("v"), TimestampNano: now - 1000}}},
+					{Name: "app", Entries: es},
+				}
+				sn := buildSnapshot(3, 1, "b", now-10, sds)
+				upd := snapshot.Update{Snapshot: sn, NameInfo: snapshot.NameInfo{Kind: snapshot.KindSnapshot, InstanceID: "b", SyncerName: dbName, Timestamp: time.Unix(0, int64(now-10))}}
+				var loadErr error
+				var pan any
+				func() {
+					defer func() { pan = recover() }()
+					_, _, loadErr = sy.LoadOnce(context.Background(), env, "b", upd, header.TxnID(last))
+				}()
+				after, last2, _ := dumpEnv(env)
+				cleanup()
+				hist(out.Hist, fmt.Sprintf("load/malformed-key/native=%v/keylen=%d", native, len(badKey)))
+				in := map[string]any{"native": native, "bad_key_length": len(badKey), "position_in_dbi": pos, "env": cEnv(before, last), "snapshot_dbis": "aaa (new here, 1 entry); app (2 well-formed entries and the malformed one)"}
+				switch {
+				case pan != nil:
+					out.Oracle = append(out.Oracle, OracleFailure{"C18", "no-panic", fmt.Sprint(pan), in})
+				case loadErr == nil:
+					out.Oracle = append(out.Oracle, OracleFailure{"C18", "malformed-entry-fails-whole-snapshot", fmt.Sprintf("a snapshot whose DBI app holds an entry with a key of %d bytes (LMDB stores 1..511) was reported as merged; LMDB before: %s after: %s", len(badKey), cEnv(before, last), cEnv(after, last2)), in})
+				case cEnv(after, last2) != cEnv(before, last):
+					out.Oracle = append(out.Oracle, OracleFailure{"C18", "all-or-nothing", fmt.Sprintf("LoadOnce failed (%v) on an entry with a key of %d bytes but the LMDB changed", loadErr, len(badKey)), in})
+				}
+			}
+		}
+	}
+	return nil
+}
+
+// sweeperForeignHeaderBytes (C13, C14): the real Sweeper on a DBI in which another application (or a newer
+// version) wrote headers whose RESERVED bytes (offsets 18..21; docs/schema-native.md: readers ignore them) are not
+// zero — on live entries, on young markers and on expired markers. The pass must end without error, remove every
+// expired marker (foreign bytes or not) and nothing else, in this DBI and in the DBI that sorts after it.
+func sweeperForeignHeaderBytes(out *AreaOut) error {
+	for _, native := range []bool{true, false} {
+		out.OracleN++
+		env, cleanup, err := swNewEnv()
+		if err != nil {
+			return err
+		}
+		n1, n2 := "app", "zzz"
+		if !native {
+			n1, n2 = shadowPrefix+"app", shadowPrefix+"zzz"
+		}
+		now := uint64(time.Now().UnixNano())
+		expired, young := now-uint64(49*time.Hour), now-uint64(time.Hour)
+		type rec struct {
+			k       string
+			v       []byte
+			expired bool
+		}
+		foreign := func(v []byte, off int, b byte) []byte { v[off] = b; return v }
+		var recs []rec
+		for i := 0; i < 30; i++ {
+			k := fmt.Sprintf("key-%04d", i)
+			switch i % 3 {
+			case 0:
+				recs = append(recs, rec{k, swVal(expired-uint64(i), 1, nil), true})
+			case 1:
+				recs = append(recs, rec{k, swVal(young+uint64(i), 1, nil), false})
+			default:
+				recs = append(recs, rec{k, swVal(expired, 0, []byte("live")), false})
+			}
+		}
+		recs[6].v = foreign(recs[6].v, 18, 0x80)   // expired marker
+		recs[7].v = foreign(recs[7].v, 21, 1)      // young marker
+		recs[17].v = foreign(recs[17].v, 19, 1)    // live entry
+		recs[21].v = foreign(recs[21].v, 20, 0xff) // expired marker
+		err = env.Update(func(txn *lmdb.Txn) error {
+			for _, name := range []string{n1, n2} {
+				dbi, err := txn.OpenDBI(name, lmdb.Create)
+				if err != nil {
+					return err
+				}
+				for _, r := range recs {
+					if err := txn.Put(dbi, []byte(r.k), r.v, 0); err != nil {
+						return err
+					}
+				}
+			}
+			return nil
+		})
+		if err != nil {
+			cleanup()
+			return err
+		}
+		sw := sweeper.New("verif-foreign", config.Sweeper{Enabled: true, RetentionDays: 1, LockDuration: time.Second, ReleaseDuration: time.Millisecond}, env, swLogger, native)
+		ctx, cancel := context.WithTimeout(context.Background(), 20*time.Second)
+		serr := sw.VerifSweepOnce(ctx)
+		cancel()
+		left, wrong := 0, ""
+		_ = env.View(func(txn *lmdb.Txn) error {
+			for _, name := range []string{n1, n2} {
+				dbi, err := txn.OpenDBI(name, 0)
+				if err != nil {
+					wrong = "DBI " + name + " gone"
+					return nil
+				}
+				for _, r := range recs {
+					_, err := txn.Get(dbi, []byte(r.k))
+					switch {
+					case r.expired && err == nil:
+						left++
+					case !r.expired && err != nil && wrong == "":
+						wrong = fmt.Sprintf("entry %s of %s (not an expired marker) is gone", r.k, name)
+					}
+				}
+			}
+			return nil
+		})
+		cleanup()
+		hist(out.Hist, fmt.Sprintf("foreign-reserved-header-bytes/native=%v", native))
+		in := map[string]any{"native": native, "dbis": []string{n1, n2}, "records_per_dbi": len(recs), "entries_with_non_zero_reserved_bytes": []string{"key-0006 (expired marker, byte 18)", "key-0007 (young marker, byte 21)", "key-0017 (live, byte 19)", "key-0021 (expired marker, byte 20)"}}
+		for _, pid := range []string{"C13", "C14"} {
+			if serr != nil || left > 0 {
+				out.Oracle = append(out.Oracle, OracleFailure{pid, "removes-every-expired-marker/foreign-reserved-bytes", fmt.Sprintf("two DBIs of %d records, four of them with non-zero RESERVED header bytes (well-formed: readers must ignore those bytes): the pass returned %v and left %d of the %d deletion markers 49 h old (retention 1 day)", len(recs), serr, left, 20), in})
+			}
+			if wrong != "" {
+				out.Oracle = append(out.Oracle, OracleFailure{pid, "removes-nothing-else/foreign-reserved-bytes", wrong, in})
+			}
+		}
+	}
 	return nil
 }
